@@ -245,3 +245,106 @@ func VerifC17Round() {
 	vAssert(last/10 >= 10, "step is at least 10 sat")
 	vAssert(c17Abs(remote-p) <= c17Abs(remote-last)-last/10, "the gap to the peer's offer shrinks by at least floor(last/10)")
 }
+
+// ---------------------------------------------------------------------------
+// obligation 4b: two real closers negotiate with each other.
+// ---------------------------------------------------------------------------
+
+func c17Party(initiator bool, ideal, maxAbs btcutil.Amount, explicitMax bool) (*ChanCloser, *c17Chan) {
+	ch := &c17Chan{initiator: initiator}
+	c := c17Closer(ch)
+	c.state = closeAwaitingFlush
+	c.idealFeeRate = chainfee.SatPerKWeight(253)
+	c.cfg.FeeEstimator = &c17Est{idealRate: c.idealFeeRate, ideal: ideal, max: maxAbs}
+	if explicitMax {
+		c.cfg.MaxFee = chainfee.SatPerKWeight(1000) // any rate != idealRate: the estimator maps it to maxAbs
+	}
+	return c, ch
+}
+
+// c17Negotiate: A is the channel initiator (pays the fee, sends the first
+// offer), B the other side. Ideal fees in [100, F]; B's ideal fee within A's
+// cap (3x A's ideal fee by default, or an explicit cap >= both ideal fees).
+// Messages are delivered alternately for at most R ReceiveClosingSigned calls.
+func c17Negotiate(F btcutil.Amount, R int, explicitMax bool) {
+	c17Config()
+	idealA, idealB := c17Fee("idealA"), c17Fee("idealB")
+	vAssume(idealA <= F && idealB <= F)
+	capA := idealA * 3
+	if explicitMax {
+		capA = c17Fee("maxFeeA")
+		vAssume(idealA <= capA)
+	}
+	// "within each other's fee cap"
+	vAssume(idealB <= capA)
+	a, chA := c17Party(true, idealA, capA, explicitMax)
+	b, chB := c17Party(false, idealB, idealB*3, false)
+
+	offerA, errA := a.BeginNegotiation()
+	offerB, errB := b.BeginNegotiation()
+	vAssert(errA == nil && errB == nil, "BeginNegotiation succeeds")
+	if errA != nil || errB != nil {
+		return
+	}
+	vAssert(offerA.IsSome() && offerB.IsNone(), "only the initiator sends the first offer")
+	vAssert(a.idealFeeSat == idealA && a.maxFee == capA && b.idealFeeSat == idealB, "fee baseline taken from the estimator")
+	if offerA.IsNone() {
+		return
+	}
+	wsig, err := lnwire.NewSigFromSignature(c17FixedSig())
+	if err != nil {
+		vAssert(false, "fixed signature does not convert")
+		return
+	}
+	msg := offerA.UnwrapOr(lnwire.ClosingSigned{})
+	vAssert(msg.FeeSatoshis == idealA, "first offer is the initiator's ideal fee")
+	toB := true
+	rounds := 0
+	for i := 0; i < R; i++ {
+		recv := a
+		if toB {
+			recv = b
+		}
+		// what travels is (fee, signature): re-create the wire message
+		in := lnwire.ClosingSigned{ChannelID: recv.cid, FeeSatoshis: msg.FeeSatoshis, Signature: wsig}
+		resp, err := recv.ReceiveClosingSigned(in)
+		vAssert(err == nil, "no negotiation step fails (ideal fees within the caps)")
+		if err != nil {
+			return
+		}
+		rounds++
+		if resp.IsNone() {
+			break
+		}
+		msg = resp.UnwrapOr(lnwire.ClosingSigned{})
+		toB = !toB
+	}
+	vObserve("rounds", rounds)
+	done := a.state == closeFinished && b.state == closeFinished
+	vAssert(done, "both sides reach closeFinished within the round bound")
+	if !done {
+		return
+	}
+	vReach("agreed")
+	vAssert(len(chA.completed) == 1 && len(chB.completed) == 1 && chA.completed[0] == chB.completed[0], "both sides complete the close exactly once at the same fee")
+	fee := chA.completed[0]
+	vObserve("fee", int64(fee))
+	vAssert(chA.signed(fee) && chB.signed(fee), "the agreed fee was signed by both sides")
+	vAssert(fee <= capA, "the agreed fee is within the payer's cap")
+	lo, hi := idealA, idealB
+	if lo > hi {
+		lo, hi = hi, lo
+	}
+	vAssert(lo <= fee && fee <= hi, "the agreed fee lies between the two ideal fees")
+	vAssert(chA.broadcast == 1 && chB.broadcast == 1, "each side broadcasts once")
+	if rounds >= 5 {
+		vReach("long")
+	}
+	if idealA == idealB {
+		vReach("immediate")
+	}
+}
+
+func VerifC17Negotiate()         { c17Negotiate(200, 9, false) }
+func VerifC17NegotiateThorough() { c17Negotiate(400, 16, false) }
+func VerifC17NegotiateMaxFee()   { c17Negotiate(200, 9, true) }
